@@ -542,7 +542,11 @@ pub fn gen_case(seed: u64, shard: u64, run: u64, t: &Tier) -> Option<Case> {
         }
     }
     let mut goal = goal?;
-    let step = match if w.chance(0.05) { 9 } else { w.below(4) } {
+    let fine = Rng::derive(seed, shard, run, "c13.fine").below(100);
+    let step = match if fine < 4 { 8 } else if w.chance(0.05) { 9 } else { w.below(4) } {
+        // ultra-fine steps (thousandths of a degree): anything that thinks in absolute angles
+        // (a rounding grid, a "negligible move" threshold) is coarser than the planner's step
+        8 => *Rng::derive(seed, shard, run, "c13.fine-step").pick(&[2e-5, 5e-5, 1e-4, 1.7e-4, 3e-4]),
         // very fine steps (a tenth of a degree and less)
         9 => w.range_f64(0.0008, 0.004),
         0 => w.range_f64(0.5, 2.0f64).to_radians(),
@@ -571,6 +575,25 @@ pub fn gen_case(seed: u64, shard: u64, run: u64, t: &Tier) -> Option<Case> {
     if w.chance(0.03) {
         goal = start;
     }
+    // ... or the start up to rounding: what an inverse-kinematics round trip of the start gives
+    {
+        let mut nb = Rng::derive(seed, shard, run, "c13.nearly-equal");
+        if nb.chance(0.03) {
+            let mut q = start;
+            for j in 0..6 {
+                if nb.chance(0.5) {
+                    q[j] = match nb.below(3) {
+                        0 => q[j] + 1e-9,
+                        1 => f64::from_bits(q[j].to_bits().wrapping_add(nb.range_usize(1, 4) as u64)),
+                        _ => q[j] - 4e-12,
+                    };
+                }
+            }
+            if free(&q) {
+                goal = q;
+            }
+        }
+    }
     if step < 0.005 {
         // keep the move short (tens of steps), otherwise a plan needs thousands of nodes
         for _ in 0..10 {
@@ -581,6 +604,44 @@ pub fn gen_case(seed: u64, shard: u64, run: u64, t: &Tier) -> Option<Case> {
             clampq(&mut q);
             if free(&q) {
                 goal = q;
+                break;
+            }
+        }
+    }
+    // postures AT a joint limit (a fraction of a planner step inside it) on one to three joints:
+    // the first extension towards any sample that is not where the sampler's contract says it
+    // is steps out of the limits, and the other tree usually connects straight to that node
+    let mut start = start;
+    // (not with fine steps: the move has just been kept short there, a long one needs tens of
+    // thousands of nodes and a chain that long overflows the kd-tree's recursion on a small stack)
+    if !wrapping && step >= 0.005 && knobs.chance(0.3) {
+        let mut b = Rng::derive(seed, shard, run, "c13.boundary");
+        for _ in 0..10 {
+            let (mut qs, mut qg) = (start, goal);
+            // preferred: the limit OPPOSITE to the side on which the range reaches past half a
+            // turn (an angle that some code "canonicalises" by a full turn lands beyond it)
+            let mut preferred: Vec<(usize, bool)> = Vec::new();
+            for j in 0..6 {
+                if lt[j] > std::f64::consts::PI {
+                    preferred.push((j, true));
+                }
+                if lf[j] < -std::f64::consts::PI {
+                    preferred.push((j, false));
+                }
+            }
+            for _ in 0..b.range_usize(1, 3) {
+                let (j, low_side) = if !preferred.is_empty() && b.chance(0.7) { *b.pick(&preferred) } else { (b.below(6), b.chance(0.5)) };
+                let inside = step * b.range_f64(0.02, 0.5);
+                let at = if low_side { lf[j] + inside } else { lt[j] - inside };
+                if b.chance(0.7) {
+                    qs[j] = at;
+                } else {
+                    qg[j] = at;
+                }
+            }
+            if free(&qs) && free(&qg) {
+                start = qs;
+                goal = qg;
                 break;
             }
         }
